@@ -33,6 +33,29 @@ theorem fixed_dep_range_rejected :
     (match unmarshal {} witnessDepRangeTy witnessDepRangeIn with | .error .range => true | _ => false) = true := by
   decide +kernel
 
+def witnessNaNTy : Ty := .struct (.cons "F".toList (some "f,string,range=[1:5]".toList) (.prim (.float 64)) .nil)
+def witnessNaNIn : J := .obj [("f".toList, .str "NaN".toList)]
+
+/-- second defect of the pinned commit: every comparison with NaN is false, so `{"f":"NaN"}` passes
+`range=[1:5]` on `F float64 json:"f,string,range=[1:5]"` (same through form/path/header values). -/
+theorem pinned_nan_range_witness :
+    acceptsUnsound { pinned := true } witnessNaNTy witnessNaNIn = true := by decide +kernel
+
+theorem fixed_nan_range_rejected :
+    (match unmarshal {} witnessNaNTy witnessNaNIn with | .error .range => true | _ => false) = true := by
+  decide +kernel
+
+/-- third defect of the pinned commit: under `WithFromArray` a null value reaches `reflect.TypeOf(nil).Kind()` — a panic -/
+theorem pinned_fromArray_nil_panics :
+    (match unmarshal { fromString := true, fromArray := true, pinned := true }
+        (.struct (.cons "F".toList (some "a,optional".toList) (.prim .string) .nil)) (.obj [("a".toList, .null)]) with
+     | .error .panic => true | _ => false) = true := by decide +kernel
+
+theorem fixed_fromArray_nil_accepted :
+    (match unmarshal { fromString := true, fromArray := true }
+        (.struct (.cons "F".toList (some "a,optional".toList) (.prim .string) .nil)) (.obj [("a".toList, .null)]) with
+     | .ok _ => true | _ => false) = true := by decide +kernel
+
 /-- **accept_sound** — nothing invalid is ever accepted: for every struct type (any nesting of structs and
 pointers, any tag text), every unmarshaler configuration of the repaired code and every input document, a
 successful unmarshal yields a value that satisfies the declared constraints: required scalars supplied,
